@@ -253,6 +253,31 @@ def warm_up(args):
             pass
 
 
+def clobber(x):
+    """The caller owns the result of a pure operation and may hand it to the library's IN-PLACE operations.
+    (Another kind of history: a result that shares structure with its operand passes every check until some
+    later library call changes the result in place.)  Only library calls are used, no direct container edits:
+    the statement speaks of library calls."""
+    import gambatools.cfg_algorithms as ca
+    import gambatools.pda_algorithms as pa
+    import gambatools.dfa_algorithms as da
+    from gambatools.cfg import CFG
+    from gambatools.pda import PDA
+    from gambatools.dfa import DFA
+    ops = []
+    if isinstance(x, CFG):
+        ops = [ca.cfg_remove_useless_rules_in_place, ca.cfg_to_chomsky_in_place]
+    elif isinstance(x, PDA):
+        ops = [pa.pda_to_accept_on_empty_stack_in_place, pa.pda_to_push_pop_in_place]
+    elif isinstance(x, DFA):
+        ops = [da.dfa_make_total_in_place]
+    for f in ops:
+        try:
+            guarded(lambda: f(x), 20)
+        except Exception:
+            pass
+
+
 def run_case(case, table, logging):
     from gambatools.global_settings import GambaTools
     kinds, fn, rkind = table[case["opname"]]
@@ -273,10 +298,17 @@ def run_case(case, table, logging):
     finally:
         GambaTools.enable_logging = False
         GambaTools.pda_epsilon_closure_max_iterations = default_limit
+    p1 = proj(r1, rkind) if x1 == "none" else "none"
+    p2 = proj(r2, rkind) if x2 == "none" else "none"
+    # the results are the caller's: both are changed in place, then the operands are looked at again
+    if x1 == "none":
+        clobber(r1)
+    if x2 == "none" and r2 is not r1:
+        clobber(r2)
     after = snapshot(args)
     ev = {"op": "pure_call", "opname": case["opname"], "case": case["id"], "rkind": rkind, "before": before,
           "after": after if mid == before else mid, "exc": x1, "exc2": x2, "logging": logging,
-          "res": proj(r1, rkind) if x1 == "none" else "none", "res2": proj(r2, rkind) if x2 == "none" else "none",
+          "res": p1, "res2": p2,
           "src": {"kind": "case", "opname": case["opname"], "seed": case["seed"], "id": case["id"],
                   "logging": logging}}
     return ev
@@ -365,7 +397,8 @@ MODELS = {"quick": [("Session", "Session_q.cfg", "heap-level model: OperandsUnch
 RULE = ("59 pure operations of the library (acceptance tests, enumerators, simulators, printers, minimisers, products, "
         "conversions, normal forms without _in_place, generate_language) on seeded random arguments; every case is run "
         "in 3 (12) processes with different PYTHONHASHSEED, in a different order (history) and with logging on/off, "
-        "twice in a row on the same argument objects; arguments are projected before and after; the runs of one case "
+        "twice in a row on the same argument objects, then the library's in-place operations are applied to both results "
+        "(Chomsky conversion / useless-rule removal for grammars, the PDA normal forms, totalisation for DFAs); arguments are projected before, in between and after; the runs of one case "
         "are grouped and compared (identical values / exactly equal languages / languages up to 3 for grammars and "
         "PDAs); plus the exhaustive Session.tla behaviours replayed (operands before/after every call); non-trivial = "
         "the result is an object (not a value); distinct = distinct (operation, arguments)")
